@@ -14,6 +14,11 @@ Documented rules encoded here
     entered are given by the first difference of the two outlines (or the position of the target itself)
   * order of a transition: exit acts bottom-up (auxes of a frame first, conditional auxes last), rexit bottom-up,
     renter top-down, enter top-down (acts then auxes), activation
+  * `share is updated [in frame f]`: the share was written (by a running framer) after the mark `framer<f` was
+    last set, or at the very time it was set unless a taken transition already used that time; `share is changed`:
+    the value differs from the one saved in the mark (an unset mark counts as updated/changed).  The mark is set
+    when frame f is entered (before its other enter actions, only with an `in frame` clause) and by every taken
+    transition / started conditional auxiliary that carries the need (transit sub-context, after all checks)
   * a conditional aux: enter + one recur when its needs hold and it is done; if not done afterwards the outline
     is cut at its main frame; while not done: segue + recur each run; when done: exit it, restore the outline
 """
@@ -59,6 +64,8 @@ class Machine(object):
         self.prog = prog
         self.now = 0
         self.vals = list(prog["shares"])
+        self.stamps = [None] * len(prog["shares"])          # time of the last write by a running framer
+        self.marks = {}                                     # (share, key) -> {"stamp", "used", "data"}
         self.log = []
         self.cov = {}
         self.outcomes = {}          # id(need dict) -> set of outcomes seen
@@ -72,6 +79,8 @@ class Machine(object):
         for i, fr in enumerate(prog["framers"]):
             self.link(self.framers[i], fr)
             self.fill(self.framers[i], fr)
+        for pr in floeng.mark_pairs(prog):
+            self.marks[pr] = {"stamp": None, "used": None, "data": None}
 
     # ---------------------------------------------------------------- build
     def link(self, F, fr):
@@ -109,8 +118,12 @@ class Machine(object):
 
     def fill(self, F, fr):
         i = F.idx
+        for j, ents in floeng.marker_enacts(self.prog, i).items():       # enter markers come first
+            for (kind, sh, key) in ents:
+                F.frames[j].enacts.append({"k": kind, "sh": sh, "key": key, "transit": False})
         for j, f in enumerate(fr["frames"]):
             fm = F.frames[j]
+            fm.local = j
             for it in f["items"]:
                 t = it["t"]
                 if t == "act":
@@ -159,6 +172,14 @@ class Machine(object):
             r = self.framers[nd["fr"]].done
         elif k == "st":
             r = self.framers[nd["fr"]].status == nd["st"]
+        elif k == "up":
+            mk = self.marks[(nd["sh"], floeng.mark_key(self.prog, F.idx, fm.local, nd))]
+            st = self.stamps[nd["sh"]]
+            r = st is not None and (mk["stamp"] is None or st > mk["stamp"] or
+                                    (st == mk["stamp"] and mk["used"] != mk["stamp"]))
+        elif k == "chg":
+            mk = self.marks[(nd["sh"], floeng.mark_key(self.prog, F.idx, fm.local, nd))]
+            r = mk["data"] is None or mk["data"] != self.vals[nd["sh"]]
         elif k == "ad":
             frame = fm if nd.get("frame") is None else F.frames[nd["frame"]]
             if nd["which"] == "any":
@@ -180,7 +201,16 @@ class Machine(object):
         if k == "rec":
             self.log.append("E f%d %s %d" % (fm.gid, ctx, a["tag"]))
             return bool(a.get("ret", 0))
-        if k in ("put", "set"):
+        if k in ("put", "set", "inc", "incf", "copy"):
+            self.stamps[a["dst"]] = self.now
+        if k == "mku":
+            mk = self.marks[(a["sh"], a["key"])]
+            mk["stamp"] = self.now
+            if a["transit"]:
+                mk["used"] = self.now
+        elif k == "mkc":
+            self.marks[(a["sh"], a["key"])]["data"] = self.vals[a["sh"]]
+        elif k in ("put", "set"):
             self.vals[a["dst"]] = a["v"]
         elif k == "inc":
             self.vals[a["dst"]] += a["v"]
@@ -200,18 +230,25 @@ class Machine(object):
         return False
 
     # ---------------------------------------------------------------- frames
-    def can_enter(self, fm, exits):
+    def can_enter(self, fm, exits, claimed):
+        """`claimed`: the auxiliaries named by the frames checked so far in this same check (one entry of
+        frames never gets the same auxiliary twice)"""
         if not self.needs(fm.beacts, fm.framer, fm):
             return False
         for aux in fm.auxes:
             if aux.main is not None and aux.main is not fm and aux.main not in exits:
                 return False
-            if not self.can_start(aux):
+            if aux in claimed:
+                self.hit("aux-claimed-twice")
+                return False
+            claimed.append(aux)
+            if not self.can_start(aux, claimed):
                 return False
         return True
 
-    def can_start(self, F):
-        return all(self.can_enter(fm, []) for fm in F.first.outline)
+    def can_start(self, F, claimed=None):
+        claimed = [] if claimed is None else claimed
+        return all(self.can_enter(fm, [], claimed) for fm in F.first.outline)
 
     def enter_frame(self, fm):
         for a in fm.enacts:
@@ -228,7 +265,7 @@ class Machine(object):
         for a in fm.exacts:
             self.act(a, fm, "exit")
         for aux in fm.condauxes:
-            if not aux.done:
+            if not aux.done and aux.main is fm:         # only the frame the auxiliary is running for exits it
                 self.exit_all(aux)
                 aux.main = None
 
@@ -290,10 +327,12 @@ class Machine(object):
             self.hit("go-refused-empty")
             return False                      # nothing to enter: no transition
         exits, enters, common = cur[cut:], tgt[cut:], cur[:cut]
-        if not all(self.can_enter(fm, exits) for fm in enters):
+        claimed = []
+        if not all(self.can_enter(fm, exits, claimed) for fm in enters):
             self.hit("go-refused-guard")
             return False
         self.hit("go-taken")
+        self.transit_marks(nds, F, near)
         if far in cur:
             self.hit("go-forced")
         if common:
@@ -312,6 +351,14 @@ class Machine(object):
         F.active, F.actives = far, list(far.outline)
         return True
 
+    def transit_marks(self, nds, F, fm):
+        """the marks of the `is updated` / `is changed` conditions of a transition that is being taken"""
+        for nd in nds:
+            if nd["k"] in ("up", "chg"):
+                self.hit("mark-transit")
+                self.act({"k": "mku" if nd["k"] == "up" else "mkc", "sh": nd["sh"],
+                          "key": floeng.mark_key(self.prog, F.idx, fm.local, nd), "transit": True}, fm, "transit")
+
     def conditional(self, F, main, nds, aux):
         if aux.done:
             if not self.needs(nds, F, main):
@@ -320,6 +367,7 @@ class Machine(object):
                 return False
             if not self.can_start(aux):
                 return False
+            self.transit_marks(nds, F, main)
             aux.main = main
             if len(F.actives) < len(F.active.outline):
                 self.hit("susp-nested-start")
@@ -333,6 +381,9 @@ class Machine(object):
             self.hit("susp-start")
             F.actives = list(main.head)
             return True
+        if aux.main is not main:                        # running for another frame: not this clause's business
+            self.hit("susp-not-owner")
+            return False
         self.segue(aux)
         self.recur(aux)
         if aux.done:
@@ -403,6 +454,10 @@ class Machine(object):
                                   "1" if F.done else "0", num(F.main), str(F.elapsed), str(F.recurred)]))
         out.append(tag + " " + " ".join(recs))
         out.append("V " + ",".join(str(v) for v in self.vals))
+        o = lambda x: "-" if x is None else str(x)
+        out.append("K " + " ".join("%d.%d:%s:%s:%s:%s" % (sh, key, o(self.stamps[sh]), o(mk["stamp"]), o(mk["used"]),
+                                                         o(mk["data"]))
+                                   for (sh, key), mk in sorted(self.marks.items())))
 
     def run(self):
         out = []
